@@ -5,6 +5,7 @@ from cv import flow, rules, graph
 from cv.rules import events_of
 
 TITLE = "Restore stays inside its destination and never clobbers by default"
+TECHNIQUE = 'static analysis: effect table over the call graph (no-follow primitives only on symlink paths), guard analysis of the refusal, path provenance'
 EXPLANATION = (
     "Decided: (1) restore_symlink (and everything it calls) touches the link only with symlink(), lchown and "
     "lutimes - no chmod, no following chown/utimes, no open/create - and the shared set_owner uses lchown only; "
